@@ -502,4 +502,67 @@ theorem live_replay_ends_after_last (zero : Int) (recTime : Bool) (ps : List SPo
   have hl := h.length_eq
   simp [liveStreamReplay, liveBatchReplay, replayStream, replayStreamGo_length, ← hl]
 
+/-! ### Recordings made one after the other in one process (the writer's state) -/
+
+theorem writePointScratch_reset_empty (scratch : Bytes) (s : Sink) (f : Frame) :
+    (writePointScratch true scratch s f).1 = [] := by
+  simp [writePointScratch]
+
+/-- **empty-after-every-record**: a writer that empties its scratch buffer after EVERY record (also after a failed
+write) hands an empty buffer on, whatever the sink did. -/
+theorem scratch_empty_after_every_record (s : Sink) (fs : List Frame) :
+    (recordScratch true [] s fs).1 = [] := by
+  suffices h : ∀ (fs : List Frame) (scr : Bytes) (s : Sink), scr = [] → (recordScratch true scr s fs).1 = [] from h fs [] s rfl
+  intro fs
+  induction fs with
+  | nil => intro scr s h; simpa [recordScratch] using h
+  | cons f fs ih =>
+    intro scr s _
+    simp only [recordScratch]
+    exact ih _ _ (writePointScratch_reset_empty scr s f)
+
+/-- **recordings_are_independent**: with the empty-after-every-record discipline, what a recording holds is a function
+of ITS OWN points and sink only: whatever was recorded before in the same process (any points `fsA`, into any sink `sA`,
+failing anywhere or not at all) changes nothing. -/
+theorem recordings_are_independent (sA sB : Sink) (fsA fsB : List Frame) :
+    (recordScratch true (recordScratch true [] sA fsA).1 sB fsB).2 = (recordScratch true [] sB fsB).2 := by
+  rw [scratch_empty_after_every_record]
+
+/-- The writer as it is (`writePoint`: no state besides the sink) on a healthy sink writes exactly the frames. -/
+theorem healthy_recording_is_its_frames (o : Bytes) (fs : List Frame) :
+    recordInto ⟨o, none⟩ fs = ⟨o ++ writeFrames fs, none⟩ := by
+  induction fs generalizing o with
+  | nil => simp [recordInto, writeFrames]
+  | cons f fs ih =>
+    have h : (writePoint ⟨o, none⟩ f).1 = ⟨o ++ f.bytes, none⟩ := by
+      simp [writePoint, Sink.write, Frame.bytes]
+    simp only [recordInto, List.foldl_cons] at ih ⊢
+    rw [h, ih]
+    simp [writeFrames]
+
+/-- Counterexample for a scratch buffer that is NOT emptied after a failed write (`bytes.Buffer.WriteTo` empties it only
+when the write succeeded completely): recording A (`dbA/rpA/"s v=1i 1"`, `"s v=2i 2"`) into a sink with room for 3
+bytes, then recording B (`dbB/rpB/"c v=7i 5"`) into a healthy sink: B begins with the bytes of A the failed sink did
+not take, its replay delivers A's second point, which was never recorded into it; with the discipline B is its frame. -/
+theorem stale_scratch_contaminates_next_recording :
+    let fA : List Frame := [⟨[100,98,65], [114,112,65], [115,32,118,61,49,105,32,49]⟩, ⟨[100,98,65], [114,112,65], [115,32,118,61,50,105,32,50]⟩]
+    let fB : List Frame := [⟨[100,98,66], [114,112,66], [99,32,118,61,55,105,32,53]⟩]
+    (recordScratch false (recordScratch false [] ⟨[], some 3⟩ fA).1 ⟨[], none⟩ fB).2.out ≠ writeFrames fB
+    ∧ (readStream exF0 1 (recordScratch false (recordScratch false [] ⟨[], some 3⟩ fA).1 ⟨[], none⟩ fB).2.out).1.map (fun p => (p.db, p.time))
+        = [([], 1), ([100,98,65], 2), ([100,98,66], 5)]
+    ∧ (recordScratch true (recordScratch true [] ⟨[], some 3⟩ fA).1 ⟨[], none⟩ fB).2.out = writeFrames fB := by
+  decide
+/-- Stated, not proved (tied by the correspondence run on every fault case, `cut` line): the writer as it is leaves in a
+sink with room for `k` bytes exactly the first `k` bytes of the recording. -/
+def failed_recording_holds_prefix_stmt : Prop :=
+  ∀ (k : Nat) (fs : List Frame), (recordInto ⟨[], some k⟩ fs).out = (writeFrames fs).take k
+
+/-- One evaluated instance per class of `k` (before the first record, inside db/rp, inside the line, before the last
+line feed, between two records, never reached). -/
+theorem failed_recording_holds_prefix_instances :
+    ∀ k ∈ [0, 2, 9, 15, 16, 20, 32, 40],
+      (recordInto ⟨[], some k⟩ [⟨[100,98,65], [114,112,65], [115,32,118,61,49,105,32,49]⟩, ⟨[100,98,65], [114,112,65], [115,32,118,61,50,105,32,50]⟩]).out
+        = (writeFrames [⟨[100,98,65], [114,112,65], [115,32,118,61,49,105,32,49]⟩, ⟨[100,98,65], [114,112,65], [115,32,118,61,50,105,32,50]⟩]).take k := by
+  decide
+
 end Kap.Props.C18
